@@ -151,6 +151,7 @@ class Profile:
         self.typed = 0.15
         self.aliases = 0.3
         self.infer = 0.15
+        self.pos_alias = 0.0      # positionals carrying (meaningless) long aliases
         self.conventional = False
         self.__dict__.update(kw)
 
@@ -320,6 +321,10 @@ def gen_cmd(rng, prof, depth=0, path="p", used_env=None, inherited=None):
             a["default"] = [b"pd"]
         if chance(rng, prof.typed * 0.5):
             a["vp"] = pick(rng, ["os", ("i64", -5, 300)])
+        if prof.pos_alias and chance(rng, prof.pos_alias):
+            al = fresh_long()
+            if al:
+                a["aliases"] = [(al.encode(), chance(rng, 0.5))]
         c["args"].append(a)
 
     # groups and relations
